@@ -1511,6 +1511,33 @@ bool dispatch_api(State& st, const std::string& op, const json& a, json& ret)
         }
         return true;
     }
+    if (op == "other_writer_exec")
+    {
+        // Another writer: a separate SQLite connection to one database file of the library, opened, used for the statements
+        // given and closed again while the library's own handles stay open.  {"file": path, "sql": [..]}
+        HarnessSql guard;
+        sqlite3* c = nullptr;
+        if (sqlite3_open_v2(a.at("file").get<std::string>().c_str(), &c, SQLITE_OPEN_READWRITE, nullptr) != SQLITE_OK)
+        {
+            std::string e = c ? sqlite3_errmsg(c) : "?";
+            if (c) sqlite3_close_v2(c);
+            throw harness_error("other writer cannot open the file: " + e);
+        }
+        json done = json::array();
+        try
+        {
+            sqlite3_busy_timeout(c, 2000);
+            for (auto& q : a.at("sql")) done.push_back(raw_query(c, q.get<std::string>())["rows"].size());
+        }
+        catch (...)
+        {
+            sqlite3_close_v2(c);
+            throw;
+        }
+        sqlite3_close_v2(c);
+        ret = done;
+        return true;
+    }
     if (op == "raw_exec")
     {
         ret = raw_query(lib_conn(), a.at("sql").get<std::string>(), a.value("params", json::array()));
